@@ -1291,8 +1291,11 @@ fn process_file_content(
         return Ok((file_matches, false));
     }
 
-    // Convert to string
-    let content = String::from_utf8_lossy(&content_bytes);
+    // A file that is not valid UTF-8 is left out: offsets into a lossily decoded copy are not
+    // offsets into the file, and apply (which reads files as strings) could not edit it anyway
+    let Ok(content) = std::str::from_utf8(&content_bytes) else {
+        return Ok((file_matches, false));
+    };
     let lines: Vec<&str> = content.lines().collect();
     // Byte offset of the start of every line: `start`/`end` of a hunk are offsets into the file
     let mut line_starts = Vec::with_capacity(lines.len());
